@@ -33,6 +33,9 @@ fn entry_alphabet() -> Vec<Entry> {
     v.push(ind("forall N$i (N$i >= 0 -> (in(N$i) -> out(N$i)))"));
     v.push(ind("forall N$i X (N$i >= -1 -> (in(N$i) and in(X) -> out(X)))"));
     v.push(ind("forall N$i (N$i >= 1 -> (exists N$i (in(N$i)) or out(N$i)))"));
+    // a general variable that shares its name with the integer induction variable (quantified before it / free)
+    v.push(ind("forall N N$i (N$i >= 0 -> (in(N) and in(N$i) -> out(N$i) or out(N)))"));
+    v.push(ind("forall N$i (N$i >= 0 -> (in(N) -> out(N$i)))"));
     v.push(def("forall X (d1(X) <-> in(X) and X > 1)", ("d1", 1), None));
     v.push(def("forall X (d2(X) <-> d1(X) or out(X))", ("d2", 1), None));
     v.push(def("forall X (out(X) <-> in(X))", ("out", 1), Some("defines a task predicate")));
@@ -264,7 +267,13 @@ fn check_induction(run: &Run, lemma_text: &str, base: &fol::Formula, step: &fol:
     let fol::Formula::AtomicFormula(fol::AtomicFormula::Comparison(c)) = &**lhs else { return None };
     let fol::GeneralTerm::IntegerTerm(fol::IntegerTerm::Variable(nv)) = &c.term else { return None };
     let fol::GeneralTerm::IntegerTerm(fol::IntegerTerm::Numeral(n0)) = &c.guards[0].term else { return None };
-    let others: Vec<fol::Variable> = quantification.variables.iter().filter(|v| !(v.name == *nv && v.sort == fol::Sort::Integer)).cloned().collect();
+    let mut others: Vec<fol::Variable> = quantification.variables.iter().filter(|v| !(v.name == *nv && v.sort == fol::Sort::Integer)).cloned().collect();
+    // free variables of the lemma are universally closed
+    for v in lemma.free_variables() {
+        if !others.contains(&v) {
+            others.push(v);
+        }
+    }
     let active = vec![Val::Int(0), Val::Int(1), Val::sym("a")];
     let u = Universe::new(&[("in".into(), 1), ("out".into(), 1)], &active);
     let sp = Space::new(u.len());
@@ -370,7 +379,7 @@ pub fn run(run: &Run) {
     let tasks = base_tasks();
     run.set_extra("outlines_generated", json!(outlines.len()));
     run.set_extra("base_tasks", json!(tasks.len()));
-    run.set_rule("every outline of 1-2 entries and a stride of 3-entry outlines over 23 entry shapes (5 lemmas incl. free variables and references to definitions, 3 inductive lemmas incl. negative start, extra variables, induction variable rebound inside; 15 definitions incl. 0-ary ones and task-predicate symbols at another arity, 10 of them invalid for a listed reason) x 3 direction annotations, on 6 base tasks (program/program with assumption, clashing private predicates, specification with directed formulas, placeholder, declared-only second input with and without an assumption) x 3 task directions x 2 decompositions: structural check of every emitted problem (axioms only from premises of the direction, accepted definitions, lemmas established earlier; order; obligations present), definition acceptance against the reference predicate, and semantic check of every base/step obligation against environment-update evaluation on all interpretations; non-trivial = distinct (problem-name list) / step tables");
+    run.set_rule("every outline of 1-2 entries and a stride of 3-entry outlines over 25 entry shapes (5 lemmas incl. free variables and references to definitions, 5 inductive lemmas incl. negative start, extra variables, induction variable rebound inside, a general variable named like the induction variable; 15 definitions incl. 0-ary ones and task-predicate symbols at another arity, 10 of them invalid for a listed reason) x 3 direction annotations, on 6 base tasks (program/program with assumption, clashing private predicates, specification with directed formulas, placeholder, declared-only second input with and without an assumption) x 3 task directions x 2 decompositions: structural check of every emitted problem (axioms only from premises of the direction, accepted definitions, lemmas established earlier; order; obligations present), definition acceptance against the reference predicate, and semantic check of every base/step obligation against environment-update evaluation on all interpretations; non-trivial = distinct (problem-name list) / step tables");
     let plain_cache: Vec<Vec<(String, Decomposition, Vec<Problem>)>> = tasks
         .iter()
         .map(|t| {
